@@ -39,6 +39,9 @@ func init() {
 }
 
 func c19Exec(line string) string {
+	if strings.HasPrefix(line, "H ") {
+		return c19HistExec(line) // histories of calls on one set of store objects: c19_history.go
+	}
 	f := fields(line)
 	if len(f) == 7 {
 		f = append(f, "full")
@@ -427,6 +430,11 @@ func c19Gen(tier string, seed uint64, out *bufio.Writer) {
 			order := pick(r, []string{"fwd", "rev", "map", "rot" + strconv.Itoa(r.intn(7))})
 			c19Emit(out, ds, c19GenFilter(r), sortTok, skip, limit, order)
 		}
+	}
+	if tier == "thorough" {
+		c19GenHist(newRng(seed^0xC19E), out, 12000)
+	} else {
+		c19GenHist(newRng(seed^0xC19E), out, 1800)
 	}
 	if tier == "thorough" {
 		c19GenWide(newRng(seed^0xC19A), out, 2500, 60)
